@@ -28,6 +28,18 @@ CHECKS = {
         note='Oracle is int.to_bytes/from_bytes, a 6-line RFC 4251 encoder and epoch arithmetic; trusts '
              'time.tzset() and the system tzdata to switch the machine zone in-process.',
         design='3 (C11)'),
+    'C02': dict(
+        technique='mutation-based fuzzing with a semantic oracle: exhaustive truncation + seeded structure-aware '
+                  'mutants and splices of valid encodings per class, unstructured bytes; oracle = exception type '
+                  'whitelist; findings bucketed by (exception type, innermost cryptoparser frame)',
+        text='Every concrete parsable class and the subprotocol/parse_key entry points (~370 targets) are fed every '
+             'proper prefix of their seed encodings and ~1500 (thorough: 40000) seeded mutants each through '
+             'parse_immutable/parse_exact_size/parse_mutable; any exception other than the four documented parse '
+             'errors is a finding. Sampling: absence of leaks is not established, rare leaks in third-party '
+             'parsers (dateutil, asn1crypto) have a long tail.',
+        note='Seed corpus = inputs of the repository unit tests (committed) plus encodings composed from generated '
+             'objects; leak identity = exception type + innermost cryptoparser frame.',
+        design='3 (C02)'),
 }
 
 NOT_YET = {}
